@@ -65,6 +65,8 @@ inductive OpStep : State → State → Prop
       OpStep s (setAction s a { x with count := x.count + 1 })
   /-- anything that touches neither the action table nor the `Stop` events -/
   | other {s s' : State} : s'.actions = s.actions → (∀ a, stops a s'.out = stops a s.out) → OpStep s s'
+  /-- `del state.actions[b]` (the co-winner's own, never started action instance) -/
+  | delAction {s : State} (b : Nat) : OpStep s { s with actions := fun v => if v = b then none else s.actions v }
 
 inductive OpSteps : State → State → Prop
   | refl (s : State) : OpSteps s s
@@ -92,6 +94,15 @@ theorem OpStep.stopInv {s t : State} (hi : StopInv s) (h : OpStep s t) : StopInv
       · exact absurd hs (h2 x hx).2.2
     · rw [setAction_actions_ne _ _ _ _ hb]; exact hi b
   | other ha ho => exact hi.of_frame ha ho
+  | delAction b =>
+    intro a
+    rcases hi a with h0 | ⟨h1, h2⟩
+    · exact Or.inl h0
+    · refine Or.inr ⟨h1, fun x hx => ?_⟩
+      simp only at hx
+      split at hx
+      · cases hx
+      · exact h2 x hx
 
 theorem OpSteps.stopInv {s t : State} (hi : StopInv s) (h : OpSteps s t) : StopInv t := by
   induction h with
@@ -117,6 +128,169 @@ example : (match abortFlow 3 (generateUmim exState (.start 7) (AEv.startOf 7)) 0
     | .ok s2 => decide (stops 7 s2.out = 1) && (s2.actions 7).map (·.status) == some .stopping &&
         (s2.flows 0).map (·.status) == some .stopped
     | .error _ => false) = true := by decide
+
+/-! ### every operation of the operation-sequence semantics is covered by `stop_at_most_once` -/
+
+theorem OpSteps.single {s t : State} (h : OpStep s t) : OpSteps s t := .cons h (.refl _)
+
+/-- each `applyOp` step (Models/LifetimeOps.lean, repaired co-win: the winner's action is still STARTING) is a
+    sequence of `OpStep`s -/
+theorem applyOp_opSteps (s : State) (op : IOp) : OpSteps s (applyOp s op) := by
+  cases op with
+  | abort n u d =>
+    simp only [applyOp]
+    cases h : abortFlow n s u d with
+    | error e => exact .refl _
+    | ok s' => exact .single (.abort n u d h)
+  | finish n u d =>
+    simp only [applyOp]
+    cases h : finishFlow n s u d with
+    | error e => exact .refl _
+    | ok s' => exact .single (.finish n u d h)
+  | endScope n u nm =>
+    simp only [applyOp]
+    cases h : endScope n s u nm with
+    | error e => exact .refl _
+    | ok s' => exact .single (.endScope n u nm h)
+  | startChild c fid p k =>
+    simp only [applyOp]
+    split
+    · split
+      · exact .single (.other rfl (fun _ => rfl))
+      · exact .refl _
+    · exact .refl _
+  | reactivate fid known act hasInst source pm =>
+    simp only [applyOp]
+    split
+    · next s' r h =>
+      rcases processStartFlow_effect s fid known act hasInst source _ s' r h with e | ⟨_, _, _, _, _, _, _, _, e⟩
+      · rw [e]; exact .refl _
+      · rw [e]; exact .single (.other (by simp) (fun _ => by simp))
+    · exact .refl _
+  | status u st =>
+    simp only [applyOp]
+    split
+    · split
+      · exact .single (.other rfl (fun _ => rfl))
+      · exact .refl _
+    · exact .refl _
+  | newAction u a =>
+    simp only [applyOp]
+    split
+    · next f hf ha =>
+      split
+      · next h0 =>
+        refine .cons (.other (s' := setFlow s u { f with actionUids := f.actionUids ++ [a] }) rfl (fun _ => rfl)) ?_
+        exact .single (.newAction a ha (by simpa [stops] using h0))
+      · exact .refl _
+    · exact .refl _
+  | startAction a =>
+    simp only [applyOp]
+    split
+    · next x hx =>
+      split
+      · next hini => exact .single (.startAction a x hx (by simpa using hini))
+      · exact .refl _
+    · exact .refl _
+  | coWin loser a b =>
+    simp only [applyOp]
+    split
+    · next f x hf hx =>
+      split
+      · next hg =>
+        simp only [Bool.and_eq_true, beq_iff_eq] at hg
+        refine .cons (.other (s' := setFlow s loser { f with actionUids := f.actionUids.map fun y => if y == b then a else y }) rfl (fun _ => rfl)) ?_
+        refine .cons (.coWin a x hx hg.2) ?_
+        exact .single (.delAction b)
+      · exact .refl _
+    · exact .refl _
+  | event e =>
+    by_cases hg : eventOk s e = true
+    · have happ : applyOp s (.event e) = updateActionStatusByEvent s e := by simp only [applyOp, hg, if_true]
+      rw [happ]
+      simp only [eventOk, Bool.and_eq_true] at hg
+      refine .single (.event e ?_)
+      have h1 := hg.1
+      simp only [AEv.isStartEvent]
+      cases hs : e.started <;> cases hu : e.updated <;> cases hf : e.finished <;> simp [hs, hu, hf] at h1 ⊢
+    · have happ : applyOp s (.event e) = s := by simp only [applyOp, hg]; rfl
+      rw [happ]; exact .refl _
+  | label u =>
+    simp only [applyOp]
+    cases h : labelRestart s u with
+    | error e => exact .refl _
+    | ok s' =>
+      have hfr : s'.actions = s.actions ∧ s'.out = s.out := by
+        unfold labelRestart at h
+        split at h
+        · cases h
+        · split at h
+          · cases h; exact ⟨rfl, rfl⟩
+          · cases h; simp
+      show OpSteps s s'
+      exact .single (.other hfr.1 (fun _ => by rw [hfr.2]))
+  | frame u heads scopes =>
+    simp only [applyOp]
+    split
+    · exact .single (.other rfl (fun _ => rfl))
+    · exact .refl _
+  | noRestart u =>
+    simp only [applyOp]
+    exact .single (.other (by simp) (fun _ => by simp))
+
+theorem OpSteps.trans {s t r : State} (h1 : OpSteps s t) (h2 : OpSteps t r) : OpSteps s r := by
+  induction h1 with
+  | refl => exact h2
+  | cons hs _ ih => exact .cons hs (ih h2)
+
+/-- **`stop_at_most_once` over the whole operation-sequence semantics**: in every state reachable from the initial
+    state by `applyOp` every action has been sent at most one `Stop`.  (This is where the co-win guard "the winner's
+    action is still STARTING" is needed: see `cowin_stopped_action_as_is_counterexample`.) -/
+theorem stop_at_most_once_run (ops : List IOp) (a : Nat) : stops a (run ops).out ≤ 1 := by
+  have h : OpSteps initState (run ops) := by
+    unfold run
+    suffices h : ∀ (l : List IOp) (s : State), OpSteps s (l.foldl applyOp s) from h ops _
+    intro l
+    induction l with
+    | nil => intro s; exact .refl _
+    | cons op l ih => intro s; exact (applyOp_opSteps s op).trans (ih _)
+  exact stop_at_most_once initState (run ops) (fun _ => rfl) h a
+
+/-- The co-win of the UNPATCHED `_resolve_action_conflicts`: no check that the winner's action is still STARTING
+    (nor that the loser's flow is still alive). -/
+def coWinAsIs (s : State) (loser a b : Nat) : State :=
+  match s.flows loser, s.actions a with
+  | some f, some x =>
+    if a != b then
+      let s1 := setFlow s loser { f with actionUids := f.actionUids.map fun y => if y == b then a else y }
+      { setAction s1 a { x with count := x.count + 1 } with actions := fun v => if v = b then none else (setAction s1 a { x with count := x.count + 1 }).actions v }
+    else s
+  | _, _ => s
+
+/-- main(0) starts l(1) and c(3); l starts w(2).  All three reach a `send Start` in the same round: w's action 7 wins
+    (Start 7), l loses and is aborted — together with its child w: Stop 7 —, then c's head still co-wins onto action 7. -/
+def cowinPrefix : List IOp :=
+  [.status 0 .starting, .status 0 .started, .startChild 1 1 0 0, .status 1 .starting, .status 1 .started,
+   .startChild 2 2 1 0, .status 2 .starting, .status 2 .started, .startChild 3 3 0 0, .status 3 .starting, .status 3 .started,
+   .newAction 2 7, .newAction 1 8, .newAction 3 9, .startAction 7, .abort 5 1 false]
+
+/-- **as-is counterexample** (finding `cowin-after-abort-in-conflict`, replayed on the real interpreter by
+    harness/corpus/C06/cowin_after_abort.json): with the unguarded co-win, a late `…ActionStarted` and the end of
+    the co-winner produce a SECOND `Stop` for the same action; the guarded (repaired) step refuses the co-win. -/
+theorem cowin_stopped_action_as_is_counterexample :
+    stops 7 (run cowinPrefix).out = 1 ∧
+    stops 7 (applyOp (applyOp (coWinAsIs (run cowinPrefix) 3 7 9) (.event ⟨7, true, true, false, false, false, false⟩))
+      (.finish 5 3 false)).out = 2 ∧
+    applyOp (run cowinPrefix) (.coWin 3 7 9) = run cowinPrefix := by
+  refine ⟨by decide, by decide, ?_⟩
+  have h : ((run cowinPrefix).actions 7).map (·.status) = some .stopping := by decide
+  simp only [applyOp]
+  split
+  · next f x hf hx =>
+    rw [hx] at h
+    simp only [Option.map_some, Option.some.injEq] at h
+    simp [h]
+  · rfl
 
 /-! ## T1 `abort_post` / `finish_post` -/
 
